@@ -5,7 +5,7 @@ import z3
 
 from pyvc.values import *   # noqa
 from pyvc.engine import LoopSpec, EXC
-from pyvc.harness import harness, new_obj, OpaqueLog
+from pyvc.harness import state_attr, harness, new_obj, OpaqueLog
 from pyvc import models as M
 from pyvc import aio
 from contracts.c_06_sources import range_stub
@@ -161,7 +161,7 @@ def _rx_subscriber(pkg):
             E.prove('from_observer:on_subscribe_requests_the_limit', [(c[1], c[2]) for c in log.of(subscription)] == [('request', (limit,))])
         got = E.fresh_int('received_in_window', 0)
         E.assume(I(got) < I(limit))
-        sub.attrs['_received_messages'] = got
+        sub.attrs[state_attr(sub, '_received_messages', 0)] = got      # the window counter, by role (robust against renaming)
         n0 = len(log.calls)
         what = E.path.choice(3, 'signal')
         v = SOpaque('payload', 'element')
